@@ -7,6 +7,7 @@ import hashlib
 import json
 import math
 import multiprocessing as mp
+from .par import pmap
 import os
 import random
 import re
@@ -223,5 +224,4 @@ def datapath_groups(paths, vals, seed=0, per_value=3):
             lang = "yaql" if p["form"] < 4 else "jinja"
             pp = dict(p, form=p["form"] if lang == "yaql" else p["form"] - 4)
             jobs.append((pp, v, lang, vid))
-    with mp.Pool(16) as pool:
-        return pool.map(_job, jobs, chunksize=8)
+    return pmap(_job, jobs)
